@@ -34,7 +34,10 @@ UNIT = Unit(
     properties=["C13"],
     prelude=["time", "atomics", "tabs", "realf"],
     rlimit=40,
-    trusted=[],
+    trusted=[
+        "prelude/realf.rs (R6): f32 as a mathematical real; `x as usize` on a non-negative value is the floor; fract() is x - floor(x) (the IEEE-754 side is decided by the Kani harnesses of the thorough tier)",
+        "console::Style opaque; Style::apply_to keeps the wrapped value",
+    ],
     items=[
         Decl("src/state.rs", "enum", "TabExpandedString", rewrites=[T.COW]),
         Decl("src/style.rs", "enum", "Alignment", attrs="#[derive(Copy, Clone, PartialEq, Eq)]"),
